@@ -83,6 +83,27 @@ func TestC01Random(t *testing.T) {
 				}
 			},
 		}
+		// keepalive pings travel in the data sequence space: in some runs
+		// one or both ends ping more often than they resend (the pong
+		// timeout is long, the faults must not end the run early)
+		pingMs := [2]int{}
+		if i%3 == 1 {
+			for e := 0; e < 2; e++ {
+				if r.Intn(3) > 0 {
+					pingMs[e] = []int{150, 400, 2000}[r.Intn(3)]
+					cfg.Ping[e] = time.Duration(pingMs[e]) * time.Millisecond
+					cfg.Pong[e] = 90 * time.Second
+				}
+			}
+		}
+		// stream writes that return late: the answer to a packet can be
+		// processed before the send call that carried it has returned
+		lagMs := 0
+		if i%4 == 2 {
+			lagMs = []int{5, 60, 350}[r.Intn(3)]
+			cfg.SendLag = [2]time.Duration{time.Duration(lagMs) * time.Millisecond,
+				time.Duration(lagMs*r.Intn(2)) * time.Millisecond}
+		}
 		if r.Intn(3) == 0 {
 			cfg.Gap = func(ep string, id int) time.Duration {
 				return time.Duration((id*131)%1700) * time.Millisecond
@@ -98,7 +119,7 @@ func TestC01Random(t *testing.T) {
 			"staticMs":   int(static / time.Millisecond),
 			"latencyMs":  int(cfg.Latency / time.Millisecond),
 			"faultUntilS": int(until / time.Second), "sizes": sizes,
-			"seed": seed(),
+			"seed": seed(), "pingMs": pingMs, "sendLagMs": lagMs,
 		}
 		obs := map[string]any{
 			"delivered": run.Delivered, "accepted": run.Accepted,
